@@ -364,6 +364,20 @@ def main():
             print(f"VIOLATION property={prop} replay={p}")
             violations += 1
 
+    # ---- 4b-cb. C11 / C20: callbacks that look at the container they report about (tools/cbcheck.py; not modelled)
+    cb_cov = None
+    if prop in ("C11", "C20"):
+        import cbcheck
+        ccases, ctraces, cbad, cb_cov = cbcheck.check(tier, seed + (0 if prop == "C11" else 1))
+        if cbad:
+            ci, oi, why = cbad[0]
+            p = write_replay(prop, f"callback-{case_hash(ccases[ci])}",
+                             {"property": prop, "meaning": why, "operation": oi,
+                              "note": "functions with a `cb_nested` entry call <scope>.Invoke(<fn>) from inside their provider callback after a successful execution",
+                              "case": ccases[ci], "implementation_trace": ctraces[ci]})
+            print(f"VIOLATION property={prop} replay={p}")
+            violations += 1
+
     # ---- 4c. C14 / C18: the grammar stream against Parse.v (DryRun container)
     raw_cov = None
     if prop in ("C09", "C14", "C18") and all(f in built for f in ("GoTypes", "Parse", "RunRaw")):
@@ -624,6 +638,9 @@ def main():
         cov["evaluations"] += reent_cov["histories"]
     if coqchk_res:
         cov["coqchk"] = coqchk_res
+    if cb_cov:
+        cov["callbacks_looking_at_the_container"] = cb_cov
+        cov["evaluations"] += cb_cov["histories"]
     if anon_cov:
         cov["anonymous_values"] = anon_cov
         cov["evaluations"] += anon_cov["histories"]
